@@ -371,6 +371,14 @@ func (m *monitor) Start(parentCtx context.Context) {
 	if m.NamespaceInformer != nil {
 		m.NamespaceInformer.withContext(m.ctx)
 		m.NamespaceInformer.start()
+
+		// Stop informers for namespaces that have gone since CreateInformers.
+		nsNames := make([]string, 0)
+		m.VaryingInformers.Range(func(nsName string, _ []*resourceInformer) bool {
+			nsNames = append(nsNames, nsName)
+			return true
+		})
+		m.NamespaceInformer.deleteMissing(nsNames)
 	}
 }
 
